@@ -11,7 +11,7 @@ pub const MOVE_ALPHABET: &str = "abcdefgh12345678NBRQKPOo0-x:=+#nbrqkp ";
 pub const FEN_ALPHABET: &str = "rnbqkpRNBQKP12345678/ wb-KQkqabcdefgh.0369+";
 
 pub fn pick_char(cur: &mut Cursor, alphabet: &str) -> char {
-    let sel = cur.u8();
+    let sel = if alphabet.is_empty() { 200u8.saturating_add(cur.u8() % 56) } else { cur.u8() };
     if sel < 200 {
         let chars: Vec<char> = alphabet.chars().collect();
         chars[cur.below(chars.len())]
